@@ -41,3 +41,12 @@ Theorem C03_recv_replies : forall c now d w,
   let r := snd (fst (step c (Recv now d w))) in r = ROk None \/ r = RDiscarded \/ r = RStunCheck \/ r = RInternal.
 Proof. exact AgentInv.recv_replies. Qed.
 Print Assumptions C03_client_stays_usable.
+
+(* ---- the decoder part of the property as the monitor that judges the implementation (Codec/WireMon.monitor_C03dec: under
+   each of the 17 configurations a message or an error, never a panic; on success the size is 20 + the header length field
+   and does not exceed the input): it accepts the model's results for every buffer and key *)
+From Rustun Require Import Codec.WireMon Proofs.WireMeets.
+Theorem C03_model_meets_decoder_monitor : forall dec_ok key b,
+  (forall ctx, decode dec_ok ctx b <> WUnmodelled) -> monitor_C03dec b (model_obs dec_ok key b) = true.
+Proof. exact WireMeets.model_meets_C03dec. Qed.
+Print Assumptions C03_model_meets_decoder_monitor.
